@@ -47,6 +47,7 @@ type codecLine struct {
 	Reg    []setJSON `json:"reg"`
 	S      proj.Text `json:"s"`
 	Enc    proj.Text `json:"enc"`
+	Enc1   proj.Text `json:"enc1"` // expected under WithPercentEncodeSinglePercentSign
 	Dec    []int     `json:"dec"`
 	DecEnc []int     `json:"decenc"`
 }
@@ -138,6 +139,7 @@ func cmdCodec(args []string) int {
 		}
 	}
 	p := url.NewParser()
+	p1 := url.NewParser(url.WithPercentEncodeSinglePercentSign())
 	dec, ok := p.(interface{ DecodePercentEncoded(string) string })
 	if !ok {
 		fmt.Fprintln(os.Stderr, "DecodePercentEncoded not reachable")
@@ -219,6 +221,10 @@ func cmdCodec(args []string) int {
 				enc := p.PercentEncodeString(s, rs)
 				if enc != ln.Enc.ToGo() {
 					report(Mismatch{Family: *family, What: "encode", Exp: ln.Enc.ToGo(), Got: enc, Line: rawm})
+					return
+				}
+				if e1 := p1.PercentEncodeString(s, rs); e1 != ln.Enc1.ToGo() {
+					report(Mismatch{Family: *family, What: "encode under WithPercentEncodeSinglePercentSign", Exp: ln.Enc1.ToGo(), Got: e1, Line: rawm})
 					return
 				}
 				if d := dec.DecodePercentEncoded(s); d != bytesOf(ln.Dec) {
